@@ -127,6 +127,22 @@ def gen_c03(g, budget, optional=False):
                 return g.seeded_clause(content, valvar, pool, opt=opt, p_alias=p_alias)
             return g.clause(pool[:3], opt=opt, p_alias=p_alias)
 
+        force_alt = False
+        if optional and g.rng.random() < 0.1:
+            # the mandatory clause binds an anchor (?t); the OPTIONAL clause is written with three constants, takes the
+            # anchor of its predicate as AT ?t and brings a new alias: it agrees with exactly the rows whose ?t is that
+            # instant - whatever zone the stored anchor or the constant is written in (triples 26 / 39: one predicate
+            # stored in +02:00 and in UTC; constants rendered in the other spelling half of the time)
+            pid, tri = g.rng.choice([("p", [2, 3, 20, 1]), ("s", [26, 27, 28, 39]), ("q", [13, 14, 6])])
+            content = sorted(set(g.content(3, 7)) | set(tri))
+            t = bqlu.TRIPLES[g.rng.choice(tri[:3]) - 1]
+            first = bqlgen.clause(bqlgen.S(b="?a"), bqlgen.P(pid=bqlu.sid(pid), ab="?t"), bqlgen.O(b="?b"))
+            oc = bqlgen.clause(bqlgen.S(c=t[0]), bqlgen.P(c=t[1], at="?t"), bqlgen.O(cell=t[2], as_="?x"), opt=True)
+            cls = [first, oc]
+            proj = g.proj(cls)
+            graphs = g.split(content, g.rng.choice([1, 1, 2]))
+            qs.append({"clauses": cls, "proj": proj, "graphs": graphs, "glo": 0, "ghi": 0, "alt": g.rng.random() < 0.5})
+            continue
         if optional:
             nm = 1 if r < 0.6 else 2
             nopt = 1 if g.rng.random() < 0.7 else 2
@@ -145,6 +161,13 @@ def gen_c03(g, budget, optional=False):
                         c["o"]["as"] = g.alias(pool, 0.33)
                     if g.rng.random() < 0.15:
                         c["s"]["as"] = g.alias(pool, 0.33)
+                    pe = bqlu.PREDS[c["p"]["c"] - 1]
+                    if pe[1] and g.rng.random() < 0.5:
+                        # the anchor of the constant predicate as AT alias: the name of a binding that already holds
+                        # that instant (the clause agrees with the row whatever zone the constant is written in) or a
+                        # fresh one; such queries are mostly rendered with the other spelling of their instants
+                        c["p"]["at"] = valvar.get(("T", pe[2])) or g.alias(pool, 0.2)
+                        force_alt = True
                 pos = g.rng.randint(1, len(cls))
                 cls.insert(pos, c)
         elif r < 0.1:
@@ -225,7 +248,8 @@ def gen_c03(g, budget, optional=False):
         ngraphs = g.rng.choice([1, 1, 2, 3])
         graphs = g.split(content, ngraphs, overlap=g.rng.random() < 0.2)
         glo, ghi = g.bounds()
-        qs.append({"clauses": cls, "proj": proj, "graphs": graphs, "glo": glo, "ghi": ghi, "alt": g.rng.random() < 0.2})
+        qs.append({"clauses": cls, "proj": proj, "graphs": graphs, "glo": glo, "ghi": ghi,
+                   "alt": g.rng.random() < (0.7 if force_alt else 0.2)})
     return qs
 
 
